@@ -166,14 +166,20 @@ Lemma mean_rows_length k rows :
   Forall (fun r => length r = k) rows -> length (mean_rows k rows) = k.
 Proof. intros H. unfold mean_rows. rewrite map_length. apply vsum_length. exact H. Qed.
 
+Lemma nth_map_in {A B} (f : A -> B) l j d d' :
+  (j < length l)%nat -> nth j (map f l) d' = f (nth j l d).
+Proof.
+  revert j. induction l as [|a l IH]; intros [|j] H; cbn in *; try lia; try reflexivity.
+  apply IH. lia.
+Qed.
+
 (* entry j of the mean row is the mean of the members' entries j *)
 Lemma mean_rows_nth k rows j : Forall (fun r => length r = k) rows -> (j < k)%nat ->
   nth j (mean_rows k rows) 0 == qsum (map (fun r => nth j r 0) rows) / qlen rows.
 Proof.
   intros H Hj. unfold mean_rows.
-  rewrite (nth_indep _ 0 ((fun s => s / qlen rows) 0))
-    by (rewrite map_length, vsum_length; assumption).
-  rewrite map_nth. rewrite nth_vsum by exact H. reflexivity.
+  rewrite (nth_map_in (fun s => s / qlen rows) _ j 0 0) by (rewrite vsum_length; assumption).
+  rewrite nth_vsum by exact H. reflexivity.
 Qed.
 
 Lemma avg_of_distributions_is_distribution k rows :
@@ -204,8 +210,8 @@ Proof.
   intros Hne H. pose proof (qlen_pos l Hne) as Hpos.
   assert (Hs : qlen l * lo <= qsum l /\ qsum l <= qlen l * hi).
   { clear Hne Hpos. induction H as [|v l [Hv1 Hv2] _ IH].
-    - cbn. unfold qlen. cbn. lra.
-    - rewrite qsum_cons, qlen_cons. lra. }
+    - unfold qlen, inject_Z. cbn. split; lra.
+    - destruct IH as [IH1 IH2]. rewrite qsum_cons, qlen_cons. split; nra. }
   unfold qmean. split.
   - apply Qle_shift_div_l; [exact Hpos|]. lra.
   - apply Qle_shift_div_r; [exact Hpos|]. lra.
